@@ -42,7 +42,7 @@ ASSUMPTIONS = [
     "directory-listing order is varied by wrapping os.walk / glob.iglob in the harness process (inherited by forked workers)",
 ]
 
-DIRS = ["", "sub", "sub/deep", "other", ".cfg"]
+DIRS = ["", "sub", "sub/deep", "other", ".cfg", "+assets", "(g)"]
 
 
 @st.composite
@@ -78,6 +78,15 @@ def nested_state(draw):
             files[(d + "/" if d else "") + "REUSE.toml"] = P.reuse_toml(tables)
     for i in draw(st.lists(st.sampled_from(ids + ["junk", "GPL-2.0"]), max_size=5, unique=True)):
         files[f"LICENSES/{i}.txt"] = f"text {i}\n"
+    if draw(st.integers(0, 3)) == 0:
+        # a licence text stored under the identifier with its '+', used with and without the '+' in different files:
+        # 'X+' is satisfied by it, 'X' is not, whichever is looked at first
+        x = draw(st.sampled_from(["GPL-2.0", "Apache-1.0", "LGPL-2.1"]))
+        files[f"LICENSES/{x}+.txt"] = "text\n"
+        files["a_plus.py"] = P.header_text("python", ["SPDX-FileCopyrightText: 2001 Plus"], [f"{x}+"])
+        files["z_plain.c"] = P.header_text("c", ["SPDX-FileCopyrightText: 2001 Plain"], [x])
+        if draw(st.booleans()):
+            files["sub/m_plus.py"] = P.header_text("python", ["SPDX-FileCopyrightText: 2001 Plus"], [f"{x}+ OR MIT"])
     if draw(st.integers(0, 7)) == 0:
         # the same licence twice (with and without extension): the tool refuses such a project; it must do so
         # the same way whatever order the directory is listed in
